@@ -10,13 +10,14 @@ BODIES = {
     "counter": "<{|i| yield i if i < %d; recur(i + 1)}>" % LIM,
     "unguarded": "<{|i| yield i; recur(i + 1)}>",
     "fib": "<{|a, b| yield a if a < %d; recur(b, a + b)}>" % (3 * LIM),
-    "step": "<{|i, step: 1| yield i if i < %d; recur(i + step, step: step)}>" % LIM,
+    "step": "<{|i, step: 1| yield i if i < %d; recur(i + step, step: step)}>" % (3 * LIM),
     "local": "<{|i| j := i * 2; yield j if i < %d; recur(i + 1)}>" % LIM,
     "argvar": "<{yield \\ if \\ != %d; recur(\\ + 1)}>" % LIM,
     "recurfirst": "<{|i| recur(i + 1); yield i if i != 1 && i < %d}>" % (LIM + 2),
     "deferrecur": "<{|i| defer recur(i + 1); yield i if i != 1 && i < %d}>" % (LIM + 2),
     "twice": "<{|i, again| yield i if i < %d; recur(i + 1) if again; again := true}>" % LIM,
     "nested": "<{|n| row := <{|k| yield k if k <= n + 2; recur(k + 1)}>.new(1); yield n * 100 + row.next * 10 + row.next if n <= %d; recur(n + 1)}>" % LIM,
+    "raisingrecur": "<{|i| yield i if i < %d; recur(i + 1) if i != 1; recur(1 / 0) if i == 1}>" % (LIM + 2),
     "twoyields": "<{|i| yield i; yield nil if i != %d; recur(i + 1)}>" % LIM,
 }
 
@@ -35,9 +36,15 @@ def program(case):
     expect = []
     for e in case["log"]:
         op, v, r = e["op"], e["v"], e["r"]
+        ERR = "out:[nil, <err ZeroDivisionErr: cannot be divided by 0>]"
         if op == "next":
             lines.append(f"say({v}.try.next.A)")
-            expect.append((f"{v}.next", f"out:[{r[1]}, nil]" if r[0] == "val" else "out:[nil, <err StopIterErr: iter stopped>]"))
+            expect.append((f"{v}.next", f"out:[{r[1]}, nil]" if r[0] == "val" else ERR if r[0] == "err" else "out:[nil, <err StopIterErr: iter stopped>]"))
+        elif body == "raisingrecur" and op in ("A", "list", "reduce"):     # a walk may raise: observed through try
+            call = {"A": f"{v}.A", "list": f"{v}@{{|e| e * 10}}", "reduce": f"{v}$(100)+"}[op]
+            lines.append(f"say(nil.try.{{|u| {call}}}.A)")
+            val = ERR[4:] if r[0] == "err" else "[" + ("[" + ", ".join(map(str, r[1])) + "]" if op != "reduce" else str(r[1])) + ", nil]"
+            expect.append((f"{v}{'.A' if op == 'A' else '@' if op == 'list' else '$'}", "out:" + val))
         elif op == "A":
             lines.append(f"say({v}.A)")
             expect.append((f"{v}.A", "out:[" + ", ".join(map(str, r[1])) + "]"))
@@ -110,7 +117,7 @@ def run():
     ck.cov["traces_validated_against_impl"] = len(cases)
     ck.cov["exhaustive"] = not (thorough and len(cases) == 150000)
     ck.cov["rule"] = (f"{len(BODIES)} iterator bodies (guarded counter, unguarded, two-argument state, keyword state, local before yield, implicit argument variables, two "
-                      f"yields, recur / defer recur before a guard with a hole, a flag kept in the iterator's own scope, an iterator built inside the body) x every history of {maxops} operations over variables x, y: next, A, list chain, reduce chain on either; y := g.new(..), "
+                      f"yields, recur / defer recur before a guard with a hole, a flag kept in the iterator's own scope, an iterator built inside the body, an expression given to recur that raises after the yield) x every history of {maxops} operations over variables x, y: next, A, list chain, reduce chain on either; y := g.new(..), "
                       "y := x.new(..), y := x._iter, y := x; non-trivial = histories mixing next with a derivation or a walk")
     ck.assumptions = ["StopIterErr outcomes of next are observed through x.try.next.A", "built-in iterators (cursor in a Go closure) are outside the statement"]
     return ck.finish()
